@@ -66,10 +66,15 @@ def main():
         if st:
             print("refusing: /repo has local changes:\n" + st)
             return 2
+        via_src = os.environ.get("SEEDED_EVAL_VIA") == "osu_src"  # while a background soak is using /repo itself
+        meta["evaluated_via"] = "OSU_SRC=<worktree>/src" if via_src else "git -C /repo apply"
         try:
-            sh("git -C /repo apply %s" % os.path.join(dst, "patch.diff"))
+            if not via_src:
+                sh("git -C /repo apply %s" % os.path.join(dst, "patch.diff"))
             for p in ("C18", "C19"):
                 env = dict(os.environ, VERIF_NO_EVIDENCE="1", VERIF_REPLAY_DIR="/tmp/seeded_replays_%s" % sid)
+                if via_src:
+                    env["OSU_SRC"] = os.path.join(wt, "src")
                 t = time.time()
                 q = subprocess.run(["/venv/bin/python", os.path.join(HERE, "checks/run.py"), "--property", p, "--tier", "quick",
                                     "--no-selftests"], env=env, capture_output=True, text=True, timeout=3000, cwd=HERE)
@@ -80,7 +85,8 @@ def main():
                 if q.returncode not in (0, 1):
                     checks[p]["tail"] = (q.stdout + q.stderr)[-800:]
         finally:
-            sh("git -C /repo checkout -- .")
+            if not via_src:
+                sh("git -C /repo checkout -- .")
             shutil.rmtree("/tmp/seeded_replays_%s" % sid, ignore_errors=True)
     meta["checks_quick"] = checks
     meta["detected_by"] = [p for p, r in checks.items() if r["exit"] == 1]
